@@ -181,6 +181,30 @@ func raceScenarios() []raceScenario {
 		p2.rc.Conn.Write(refcodec.Encode(&refcodec.Packet{Type: refcodec.PUBLISH, Topic: []byte("r/c"), Retain: true, QoS: 0, Payload: []byte("new-c")}))
 		vsched.Quiesce()
 	}, false})
+	// (ii'') two new subscriptions collect the same retained message at the same time, one
+	// of them granted less than its QoS (the broker downgrades a copy for it), a third
+	// one in-process
+	out = append(out, raceScenario{"retained QoS 2 message || subscribe@0 || subscribe@2 || in-process subscribe@1", func() {
+		t := newTD()
+		p := t.connect("P", 0, 65535, false)
+		s1 := t.connect("S1", 0, 65535, false)
+		s2 := t.connect("S2", 0, 65535, false)
+		p.rc.Send(&refcodec.Packet{Type: refcodec.PUBLISH, Topic: []byte("r"), Retain: true, QoS: 2, ID: 0x4142, Payload: []byte("retained-at-qos-2")})
+		t.settleExcept()
+		p.rc.Send(&refcodec.Packet{Type: refcodec.PUBREL, ID: 0x4142})
+		t.settleExcept()
+		if vsched.Failed() {
+			return
+		}
+		vsched.Mark()
+		s1.rc.Conn.Write(refcodec.Encode(&refcodec.Packet{Type: refcodec.SUBSCRIBE, ID: 5, Topics: [][]byte{[]byte("r")}, QoSs: []byte{0}}))
+		s2.rc.Conn.Write(refcodec.Encode(&refcodec.Packet{Type: refcodec.SUBSCRIBE, ID: 6, Topics: [][]byte{[]byte("#")}, QoSs: []byte{2}}))
+		vsched.Go("in-process", func() {
+			cb := service.OnPublishFunc(func(m *message.PublishMessage) error { return nil })
+			t.w.Svr.Subscribe("r", 1, &cb)
+		})
+		vsched.Quiesce()
+	}, true})
 	// (iii) teardown of a subscriber || fan-out to it
 	out = append(out, raceScenario{"subscriber-teardown || fan-out", func() {
 		t := newTD()
